@@ -91,7 +91,7 @@ def blob_layout(layout="envelope"):
     # the key identifier's fixed fields are structure as well (version, magic, flags, L0, L1, L2, root key id, three lengths)
     kid = data.find(b"KDSK") - 4
     structural.update(range(kid, kid + 52))
-    res = dict(length=len(data), structural=sorted(structural), edges=sorted(edges - structural), kid=kid)
+    res = dict(length=len(data), structural=sorted(structural), edges=sorted(edges - structural), kid=kid, cms_end=cms_end)
     _LAYOUT_CACHE[layout] = res
     return res
 
